@@ -253,6 +253,7 @@ func undefCase(col *Collector, n, pos int, allow bool, form int) {
 
 func runC10(col *Collector, tier string, seed int64) {
 	derivedVarsCases(col, "c10-precedence")
+	derivedGenCases(col, rand.New(rand.NewSource(seed+1010)), map[bool]int{false: 40, true: 600}[tier == "thorough"], "c10-precedence")
 	rng := rand.New(rand.NewSource(seed))
 	col.res.Rule = "the real taskctl binary: every non-empty subset of the four variable levels {configuration file (project or global), --set, task, stage} defining one name x value orders x direct/stage, plus the empty subset (undefined => failure before execution); " +
 		"built-ins Root/TempDir/Args/ArgsList; argument vectors of <=5 words after `--` over {a, t1, k=v, -x, --, empty, 'a b', --set, x=y=z} in root and run forms; an undefined variable at every command position. " +
